@@ -11,6 +11,21 @@ NA = {
 }
 
 CHECKS = {
+    'C09': dict(
+        category='other', design_ref='DESIGN.md §5 C09',
+        technique='MIR table/decision-tree rules + cast rule with interval/NaN abstract interpretation over dominating branch edges',
+        text='Decides: the relation-operator table (partial_cmp -> bool per operator, None -> ValuesNotComparable, != is the provided negation of ==), orderable pairs are equatable pairs, no lossy int->float cast feeds a comparison and the float->int casts of the exact comparison helpers are NaN- and range-guarded, orientation of the mixed arms, min/max fold polarity. Transitivity/trichotomy over all values are not decided.',
+        note='std Ord/PartialOrd of primitives and derived structural equality trusted'),
+    'C14': dict(
+        category='other', design_ref='DESIGN.md §5 C14',
+        technique='who-calls rule over resolved call sites with key-provenance classification; shape rules for Map::get, index and `in` arms',
+        text='Decides the lookup-agreement clause: every lookup of a possibly numeric key on a CEL map goes through Map::get (the int/uint cross lookup), Map::get tries the exact key first and converts with try_from, list indexing uses get -> Null, `in` on lists is contains, map literals insert every evaluated entry. size/+ laws are delegated to std and not examined.',
+        note='std HashMap/slice contracts trusted; string/bool keys have no numeric twin'),
+    'C19': dict(
+        category='other', design_ref='DESIGN.md §5 C19',
+        technique='type-driven traversal completeness (ADT field enumeration vs provenance of recursive calls) + source/sink agreement + operator-arm reachability',
+        text='Every expression-typed field of every Expr variant (computed from the type definitions) is visited by the reference collector; the evaluator\'s two UndeclaredReference sources name exactly what the collector inserts (Ident names not starting with @, call.func_name); accumulators are @-prefixed; every operator the parser emits has an evaluator arm at its arity from which the registry is unreachable; references() takes no context.',
+        note='names looked up by host functions are outside the claim'),
     'C06': dict(
         category='other', design_ref='DESIGN.md §5 C06',
         technique='MIR path rule: sparse conditional constant propagation under an assumed to_bool(left) + CFG reachability of evaluation sites',
